@@ -1,5 +1,5 @@
 Require Extraction.
 Require Import ExtrOcamlBasic.
-From SCMO Require Import Lib.Val Model.C13.
-Definition run := run_C13.
+From SCMO Require Import Lib.Val Model.C13 Model.C13x.
+Definition run := run_C13x.
 Extraction "c13_model.ml" run.
